@@ -354,4 +354,39 @@ PLANS = {
             "spin = more than 20000 scheduling points in 10 ms of virtual time with every harness task stopped",
         ],
     },
+    "C03": {
+        "level": "exploration",
+        "rule": NT_RULE + "; C03: c03_api - at least one message was accepted by a send and one was handed to the application by a "
+                          "receive (ownership moved both ways) in a random API program; c03_msg - the nng_msg_* sequence ran to "
+                          "its end against the byte model; c03_stream - a stream transfer or an HTTP transaction completed; the "
+                          "oracles are ASan/UBSan, the allocator ledger (sized free, balance after nng_fini) and the ownership "
+                          "rule on failed sends",
+        "budget_s": {"quick": 50, "thorough": 900},
+        "scenarios": [
+            # avoid / savoid are bit masks that steer the WORKLOAD around behaviours listed in known_findings.json
+            # (oracles unchanged; AV_* / SA_* in scenarios/c03_api.cc): clear a bit when the library has been repaired.
+            # avoid 64 = one device at a time, 128 = one reply at a time per context of a cooked REP/RESPONDENT
+            # socket, 256 = no udp transport
+            S("c03_api", 1500, 45000, label="avoid_known", avoid=320),
+            # unrestricted workload: the known findings are re-observed here
+            S("c03_api", 300, 9000),
+            S("c03_msg", 400, 12000),
+            # savoid 4 = no nng_stream_free with operations pending, 8/64 = no connect right after a cancelled connect
+            # (http client / ws stream dialer), 16 = wait for the http server teardown before nng_fini,
+            # 32 = no handler removal during a transaction
+            S("c03_stream", 500, 15000, label="avoid_known", savoid=52),
+            # S4 (8, 64) stays steered around even here: its symptoms (double_completion, bare deadlock) have no
+            # signature that could be registered without hiding other defects
+            S("c03_stream", 150, 4500),
+        ],
+        "assumptions": [
+            "a program 'respects the documented preconditions' as read from docs/ref: handles may be used after close "
+            "(NNG_ECLOSED), an aio is reused only after its callback ran, nng_aio_free/stop are not called from callbacks, "
+            "buffers of stream operations live until completion, device sockets are not touched while the device owns them, "
+            "at most one submission is made on an aio after nng_aio_stop",
+            "blocking calls are bounded by finite socket/context timeouts (options are only ever set to finite timeouts)",
+            "content of messages is not part of C03: c03_msg counts model differences in probe c03_msg_content_differs "
+            "(0 on the unchanged tree) instead of asserting them",
+        ],
+    },
 }
